@@ -37,6 +37,7 @@ import (
 	"fmt"
 	"math/big"
 	"os"
+	"reflect"
 	"strings"
 
 	"github.com/consensys/gnark-crypto/ecc"
@@ -511,6 +512,54 @@ func main() {
 				stat["res.ok"]++
 			}
 		}
+	}
+	// encoder on coordinates at integer-width boundaries (2^31, 2^32, 2^63, 2^64, 2^128 …, each ±
+	// a little): such points are not on the curve, so only the encoding direction is exercised —
+	// the 256 raw bytes must come out as the same eight numbers
+	for c := 0; c < 8+*n/10; c++ {
+		proof := groth16.NewProof(ecc.BN254)
+		coord := func() *big.Int {
+			e := []uint{31, 32, 63, 64, 64, 63, 127, 128, 192, 248}[g.Intn(10)]
+			v := new(big.Int).Lsh(big.NewInt(1), e)
+			switch g.Intn(4) {
+			case 0:
+				v.Sub(v, big.NewInt(int64(1+g.Intn(3))))
+			case 1:
+				v.Add(v, big.NewInt(int64(g.Intn(1000))))
+			case 2:
+				v.Add(v, new(big.Int).Rsh(v, uint(1+g.Intn(3)))) // 1.5x, 1.25x …: inside [2^e, 2^(e+1))
+			}
+			return v
+		}
+		var a, k bn254.G1Affine
+		var bb bn254.G2Affine
+		a.X.SetBigInt(coord())
+		a.Y.SetBigInt(coord())
+		k.X.SetBigInt(coord())
+		k.Y.SetBigInt(coord())
+		bb.X.A0.SetBigInt(coord())
+		bb.X.A1.SetBigInt(coord())
+		bb.Y.A0.SetBigInt(coord())
+		bb.Y.A1.SetBigInt(coord())
+		pv := reflect.ValueOf(proof).Elem()
+		if !pv.FieldByName("Ar").IsValid() || !pv.FieldByName("Krs").IsValid() || !pv.FieldByName("Bs").IsValid() {
+			break // the proof type changed shape: the real-point cases above still run
+		}
+		pv.FieldByName("Ar").Set(reflect.ValueOf(a))
+		pv.FieldByName("Krs").Set(reflect.ValueOf(k))
+		pv.FieldByName("Bs").Set(reflect.ValueOf(bb))
+		var rawb bytes.Buffer
+		proof.WriteRawTo(&rawb)
+		if rawb.Len() != 256 {
+			break
+		}
+		js, err := json.Marshal(&prover.Proof{Proof: proof})
+		res := hex.EncodeToString(js)
+		if err != nil {
+			res = "err " + err.Error()
+		}
+		stat["synthetic-boundary-coordinates"]++
+		fmt.Fprintf(gen.Out, "marshal\t%s\t=>\t%s\n", hex.EncodeToString(rawb.Bytes()), res)
 	}
 	stat["unexpected"] = bad
 	fmt.Fprintf(os.Stderr, "{")
